@@ -242,5 +242,9 @@ theorem step_refines {s : State} (hI : Inv s) {op : Op} {s' : State} {evs : List
         List.map_cons]
       simp only [ent, List.map_cons] at hm
       rw [hm]
+  | other c =>
+    simp only [step] at h
+    cases h
+    exact ⟨hI, rfl, rfl⟩
 
 end Txdbus.Bus
